@@ -26,7 +26,7 @@ PAYLOADS = ('internal', 'nested', 'parameter', 'external_file', 'external_http',
 BENIGN = ('benign_empty_subset', 'benign_element_decl', 'benign_none')
 PROLOGS = ('plain', 'bom8', 'utf16', 'latin1', 'pad9k', 'pad17k', 'pad66k', 'subsetpad66k', 'standalone', 'standalone')
 ROLES = ('instance', 'instance_lazy', 'validate', 'main_schema', 'included', 'imported', 'redefined', 'hinted', 'docapi_schema',
-         'schema_from_settings', 'xmldocument_parse')
+         'schema_from_settings', 'xmldocument_parse', 'ctor_global_maps')
 
 # channel catalogue: (name, kind, seekable, url attribute, base_url class)
 CHANNELS = []
@@ -177,7 +177,7 @@ class C13(Check):
         if chan[1] in ('text', 'stringio', 'textio') and prolog in ('bom8', 'utf16', 'latin1'):
             prolog = 'plain'
         if chan[1] in ('http_nopath', 'http_query', 'http_opaque') and role not in ('instance', 'instance_lazy', 'validate', 'main_schema',
-                                                                                       'xmldocument_parse'):
+                                                                                       'xmldocument_parse', 'ctor_global_maps'):
             role = rng.choice(['instance', 'instance_lazy', 'validate', 'main_schema'])
         if chan[1] in ('http', 'http_opener') and rng.random() < 0.5:
             peer = rng.choice(['payload_then_benign', 'benign_then_payload', 'broken_then_payload'])
@@ -235,7 +235,7 @@ class C13(Check):
             urls = ('file://' + os.path.join(world, 'secret.txt'), 'http://sim.test/secret.txt',
                     'file://' + os.path.join(world, 'ext.dtd'))
             is_schema = role in ('main_schema', 'included', 'imported', 'redefined', 'hinted', 'docapi_schema',
-                                 'schema_from_settings')
+                                 'schema_from_settings', 'ctor_global_maps')
             tns = 'urn:imp' if role == 'imported' else None
             doc = build_doc(payload, prolog, is_schema, urls, tns)
             benign = build_doc('benign_none', 'plain', is_schema, urls, tns)
@@ -430,6 +430,15 @@ class C13(Check):
                 src = source_for(doc, 'main.xsd', 'http://sim.test/main.xsd')
                 schema = xmlschema.XMLSchema(src, base_url=base_url, defuse=mode, opener=opener)
                 trees += [s.root for s in schema.maps.iter_schemas() if s.meta_schema is not None]
+            elif role == 'ctor_global_maps':
+                # the payload document joins the maps of a harmless schema through the constructor, which is given the
+                # defuse mode for this source
+                src = source_for(doc, 'main.xsd', 'http://sim.test/main.xsd')
+                host = xmlschema.XMLSchema('<xs:schema xmlns:xs="http://www.w3.org/2001/XMLSchema" '
+                                           'targetNamespace="urn:c13-host"><xs:element name="host"/></xs:schema>')
+                kw = {'opener': opener} if opener is not None else {}
+                schema = xmlschema.XMLSchema(src, global_maps=host.maps, base_url=base_url, defuse=mode, **kw)
+                trees += [s_.root for s_ in schema.maps.iter_schemas() if s_.meta_schema is not None]
             elif role == 'schema_from_settings':
                 # the alternative constructor: stored settings plus keyword overrides (the defuse mode is an override)
                 from xmlschema.settings import SchemaSettings
